@@ -716,6 +716,10 @@ func goCode(root string, unit string) string {
 		header("Model.GoSem", "Model.GoSlices")
 		text, errs := translateSplicer(parseFile(root, "splicer/splicer.go"), parseFile(root, "pub/interfaces.go"), "Splicer", []string{"Harvest", "clone", "replenish", "microharvest"})
 		emit("splicer/splicer.go (element type, Harvest, clone, replenish, microharvest)", text, errs)
+	case "jtp":
+		header("Model.GoSem", "Model.GoIO")
+		text, errs := translateJtp(parseFile(root, "jtp/jtp.go"), []string{"parseStatusLine", "parseContentType", "parseLocation", "validateHeaders", "findLocation", "Get"})
+		emit("jtp/jtp.go (the response readers and what Get makes of a response)", text, errs)
 	default:
 		b.WriteString("-- unknown unit " + unit + "\n")
 	}
